@@ -128,8 +128,6 @@ def run_special(u, res):
                         res["violations"].append({"kind": "end-of-file-wording", "case": case,
                                                   "observed": [pos, len(text), msg[:80]]})
                     b.add("input", enc_input(num, p, text))
-                    if qval is not None:
-                        qdets.append(b.add("detok"))
                     qv = b.add("viable", CHART_FUEL)
                     ql = b.add("linecol", pos, [ord(c) for c in text])
                     checks.append((case, pos, line, col, qv, ql, skip_table(p, text)))
